@@ -30,17 +30,19 @@ def lru_to_url(lru):
 
     # Building the url back
     scheme = stems_index.get("s", "")
-    auth = stems_index.get("u", "")
-
+    u = stems_index.get("u")
     w = stems_index.get("w")
-
-    if w is not None:
-        auth += ":" + w
 
     netloc = ""
 
-    if auth:
-        netloc = auth + "@"
+    # NOTE: an empty user or password is not the same as none
+    if u is not None or w is not None:
+        netloc = u or ""
+
+        if w is not None:
+            netloc += ":" + w
+
+        netloc += "@"
 
     netloc += stems_index.get("h", "")
 
